@@ -31,6 +31,13 @@ repaired in the code by repo 5f4cdd1, the newline-in-token class is still real);
 * `C19_lexer_caret` — `MindsDBLexer.error` line / column arithmetic.
 Missing (search only): that the parser's first bad token is the grammar's (completability), that a
 suggestion of the unchecked branches is a shift, the lexer invariants themselves.
+
+[review] this header is partly stale: (1) the live code is the part-by-part variant
+(`ErrLex.splitValues = true`), for which the newline-in-token class is closed by `C19_caret_split` /
+`C19_caret_uniform`; the theorems about the one-piece `errorLocation` matter only through
+`errorLocationV_true_eq`; (2) "a suggestion of the unchecked branches is a shift" is no longer missing:
+`C19_kept_token_extends`, composed for all inputs in `C19_review_suggestion_extends`; (3) `C19_full` is not
+the property (see the note under it), `C19_review_full_caret` is.
 -/
 namespace MindsVerif.Props.C19
 open MindsVerif MindsVerif.Err MindsVerif.LR MindsVerif.Gen
@@ -41,6 +48,13 @@ line, whatever the lexer did to `value`. -/
 def C19_full : Prop :=
   ∀ (toks : List Tok) (b : Tok) (srcLen : Nat), b ∈ toks →
     ∃ pre c, errorLocation toks (some b) = pre ++ [List.replicate (c + 1) '-' ++ List.replicate srcLen '^']
+-- [review] CAUTION about `C19_full` / `C19_full_false`: `srcLen` is universally quantified and tied to
+-- NOTHING (there is no source text in the statement), so `C19_full` is false for EVERY implementation of
+-- `error_location`, however correct (a caret run cannot have two different lengths): `C19_full_false` is
+-- a refutation of an ill-posed statement, not of the property's caret clause.  It also speaks about the
+-- one-piece `errorLocation`, which is no longer the live variant (`ErrLex.splitValues = true`).  The caret
+-- clause stated over a source-text model is `C19_review_full_caret` below (after `C19_caret_uniform`),
+-- and it is PROVED for the current code under the lexer hypothesis `SrcChain`.
 
 /-- **T19.1** caret arithmetic, any number of lines, any layout satisfying the lexer invariants:
 the message is the header, at most two context lines, the `>`-prefixed line of the bad token and
@@ -216,6 +230,76 @@ theorem C19_caret_uniform (src : List Char) (toks : List Tok) (b : Tok) (h : Src
   obtain ⟨ctx, shown, shift, c, h1, h2, h3, h4, _⟩ := C19_caret_split toks b hl hb
   exact ⟨ctx, shown, shift, c, h1, h2, h3, by rw [h4]; exact headPart_slice (srcTok_of_chain h hb)⟩
 
+-- [review] non-vacuity of `SrcChain` on a REALISTIC layout (leading whitespace, a multi-line comment, a
+-- string token containing a newline, a trailing `--` comment, error on the 4th line).  Token records and
+-- message are those of the real lexer / `parse_sql` on this text (checked by hand against /repo).
+def rvSrc : List Char := "  select /* c\n x */ a,\n   'p\nq' from from -- t".toList  -- [review]
+def rvToks : List Tok :=  -- [review]
+  [⟨0, "select".toList, 1, 2⟩, ⟨1, "a".toList, 2, 20⟩, ⟨2, ",".toList, 2, 21⟩, ⟨3, "'p\nq'".toList, 3, 26⟩,
+   ⟨4, "from".toList, 4, 32⟩, ⟨4, "from".toList, 4, 37⟩]
+theorem C19_review_srcChain_example : SrcChain rvSrc 0 rvToks := by  -- [review]
+  refine ⟨by decide, ⟨by decide, by decide⟩, by decide, ⟨by decide, by decide⟩, by decide, ⟨by decide, by decide⟩,
+    by decide, ⟨by decide, by decide⟩, by decide, ⟨by decide, by decide⟩, by decide, ⟨by decide, by decide⟩, trivial⟩
+-- [review] the model's message on it = the real message (the comment is blanked, the string is split)
+example : (errorLocationV true rvToks (some ⟨4, "from".toList, 4, 37⟩)).map String.ofList =
+    ["Syntax error, unknown input:", ">            a,", ">    'p", "> q' from from", "----------^^^^"] := by decide
+-- [review] … and `C19_caret_uniform` instantiated on it: 4 carets over `src[37:41]`
+example : ∃ (ctx : List (List Char)) (shown : List Char) (shift c : Nat),
+      errorLocationV true rvToks (some ⟨4, "from".toList, 4, 37⟩) = hdrUnknown :: (ctx ++ ['>' :: shown,
+          List.replicate (c + 1) '-' ++ List.replicate 4 '^']) ∧
+      ctx.length ≤ 2 ∧ c + shift = 37 ∧ (shown.drop c).take 4 = (rvSrc.drop 37).take 4 :=
+  C19_caret_uniform rvSrc rvToks ⟨4, "from".toList, 4, 37⟩ C19_review_srcChain_example (by decide)
+
+/-- [review] `C19_caret_uniform` with the conjunct it drops from `C19_caret_split` restated on the SOURCE:
+every token that starts on the line of the bad token is shown at its own offset with (the first line of)
+its source text, and the caret count is the full token length when the token has no newline.
+(Still NOT stated: what the ≤ 2 context lines `ctx` contain, and what stands between the tokens — in the
+real message: blanks, also where the source has a comment; the first shown line keeps the absolute offset
+of its first token as leading blanks.) -/
+theorem C19_review_caret_uniform_line (src : List Char) (toks : List Tok) (b : Tok)
+    (h : SrcChain src 0 toks) (hb : b ∈ toks) :
+    ∃ (ctx : List (List Char)) (shown : List Char) (shift c : Nat),
+      errorLocationV true toks (some b) = hdrUnknown :: (ctx ++ ['>' :: shown,
+          List.replicate (c + 1) '-' ++ List.replicate (headPart b).value.length '^']) ∧
+      ctx.length ≤ 2 ∧ c + shift = b.index ∧
+      (shown.drop c).take (headPart b).value.length =
+        (src.drop b.index).take (headPart b).value.length ∧
+      (∀ t ∈ toks, t.lineno = b.lineno → shift ≤ t.index ∧
+        (shown.drop (t.index - shift)).take (headPart t).value.length =
+          (src.drop t.index).take (headPart t).value.length) ∧
+      ('\n' ∉ b.value → (headPart b).value.length = b.value.length) := by
+  have hl : layoutOK (virt toks) = true := layout_of_src src toks 0 0 h (Nat.zero_le _)
+  obtain ⟨ctx, shown, shift, c, h1, h2, h3, h4, h5⟩ := C19_caret_split toks b hl hb
+  refine ⟨ctx, shown, shift, c, h1, h2, h3, by rw [h4]; exact headPart_slice (srcTok_of_chain h hb), ?_, ?_⟩
+  · intro t ht hln
+    obtain ⟨g1, g2⟩ := h5 (headPart t) (headPart_mem ht) hln
+    exact ⟨g1, by
+      have : (headPart t).index = t.index := rfl
+      rw [this] at g2
+      rw [g2]; exact headPart_slice (srcTok_of_chain h ht)⟩
+  · intro hnl
+    show ((splitLines b.value).headD []).length = _
+    rw [splitLines_no_nl _ hnl]; rfl
+
+/-- [review] the caret clause of the property stated over a SOURCE-TEXT model (this, not `C19_full`, is the
+statement to judge): for every text `src` and every token list the uniform lexer semantics allows for it,
+and every bad token in it, the last line of the message is `c+1` dashes and `n` carets, `n` = length of the
+first line of the token's text (= the whole token when it has no newline), and the `n` characters of the shown
+line under the carets are the source characters `src[index : index+n]`. -/
+def C19_review_full_caret : Prop :=
+  ∀ (src : List Char) (toks : List Tok) (b : Tok), SrcChain src 0 toks → b ∈ toks →
+    ∃ (ctx : List (List Char)) (shown : List Char) (c n : Nat),
+      errorLocationV true toks (some b) = hdrUnknown :: (ctx ++ ['>' :: shown,
+          List.replicate (c + 1) '-' ++ List.replicate n '^']) ∧ ctx.length ≤ 2 ∧
+      n = ((splitLines b.value).headD []).length ∧ ('\n' ∉ b.value → n = b.value.length) ∧
+      (shown.drop c).take n = (src.drop b.index).take n
+
+/-- [review] … and it HOLDS for the model of the live variant (lexer semantics = hypothesis `SrcChain`) -/
+theorem C19_review_full_caret_holds : C19_review_full_caret := by
+  intro src toks b h hb
+  obtain ⟨ctx, shown, _, c, h1, h2, _, h4, _, h6⟩ := C19_review_caret_uniform_line src toks b h hb
+  exact ⟨ctx, shown, c, _, h1, h2, rfl, h6, h4⟩
+
 /-- end of input, repaired code, uniform lexer semantics: one `^` one column past the shown last line -/
 theorem C19_eof_caret_uniform (src : List Char) (toks : List Tok) (l : Tok) (h : SrcChain src 0 toks)
     (hlast : (virt toks).getLast? = some l) :
@@ -227,6 +311,22 @@ theorem C19_eof_caret_uniform (src : List Char) (toks : List Tok) (l : Tok) (h :
   rw [errorLocationV_true_eq]
   obtain ⟨ctx, shown, shift, h1, h2, h3, _⟩ := C19_eof_caret (virt toks) l hl hlast
   exact ⟨ctx, shown, shift, h1, h2, h3⟩
+
+-- [review] non-vacuity for the end-of-input theorem on a realistic layout: the text starts with an empty
+-- line, has leading blanks and a `--` comment; records / message as produced by the real code.  NOTE the
+-- first shown line: 3 leading blanks for the source line `  select a -- c` (absolute offset 3 of `select`
+-- incl. the first newline, comment dropped) — "reproduces the source line" holds up to blanks only.
+def rvSrc2 : List Char := "\n  select a -- c\n  from".toList  -- [review]
+def rvToks2 : List Tok := [⟨0, "select".toList, 2, 3⟩, ⟨1, "a".toList, 2, 10⟩, ⟨2, "from".toList, 3, 19⟩]  -- [review]
+theorem C19_review_srcChain_example2 : SrcChain rvSrc2 0 rvToks2 := by  -- [review]
+  refine ⟨by decide, ⟨by decide, by decide⟩, by decide, ⟨by decide, by decide⟩, by decide, ⟨by decide, by decide⟩, trivial⟩
+example : (errorLocationV true rvToks2 none).map String.ofList =  -- [review]
+    ["Syntax error, unexpected end of query:", ">   select a", ">        from", "-------------^"] := by decide
+example : ∃ (ctx : List (List Char)) (shown : List Char) (shift : Nat),  -- [review]
+      errorLocationV true rvToks2 none = hdrEof :: (ctx ++ ['>' :: shown,
+          List.replicate (shown.length + 1) '-' ++ ['^']]) ∧
+      ctx.length ≤ 2 ∧ shift + shown.length = 19 + 4 :=
+  C19_eof_caret_uniform rvSrc2 rvToks2 ⟨2, "from".toList, 3, 19⟩ C19_review_srcChain_example2 (by decide)
 
 /-! ### T19.3 suggestions -/
 
@@ -432,11 +532,151 @@ theorem C19_kept_token_extends (T : Tables) (hv : T.valid = true) (toks : List N
       | none => rw [hbad] at hb; simp only at hb ⊢; rw [hb.1]
   · exact Or.inr (action_accept hacc).2
 
+/-! #### [review] composition: `C19_kept_token_extends` takes the error stack `st` and `ErrAtSt … st e` as
+HYPOTHESES and `C19_suggestion_is_row_key` is about an arbitrary list `expected`; nothing above says that
+the stack `_can_take` replays on is the stack of the reported error, nor that the suggestions printed for
+the stored `expected_tokens` are shiftable.  The three theorems below close that gap inside the model. -/
+
+/-- [review] the stack `errStack` (used by `keptExpected`) returns is the stack of the very error that
+`run` / `parse` reports: `ErrAtSt` holds for it with the reported `ErrInfo`. -/
+theorem C19_review_errStack_errAtSt {T : Tables} (hv : Valid T) (toks : List Nat) :
+    ∀ (fuel : Nat) (c : Cfg), Clean T toks false c → ∀ st, errStack T fuel c = some st →
+      (∃ e, ErrAtSt T toks st e) ∧
+      ∀ fuel' e log, run T .drain false fuel' c = .none_ (some e) log → ErrAtSt T toks st e := by
+  intro fuel
+  induction fuel with
+  | zero => intro c _ st h; simp [errStack] at h
+  | succ n ih =>
+    intro c hc st h
+    have hs1 := step_clean hv .drain hc
+    have hs2 := clean_step_err hv hc
+    unfold errStack at h
+    cases hs : step T .drain false c with
+    | inl c' =>
+      rw [hs] at h hs1 hs2
+      simp only at h hs1 hs2
+      rcases hs2 with h0 | ⟨e0, he0, hE⟩
+      · rw [h0] at h
+        simp only [Option.isSome_none, Bool.and_false, Bool.false_eq_true, if_false] at h
+        rcases hs1 with hcl | ⟨_, _, hpost⟩
+        · obtain ⟨i1, i2⟩ := ih c' hcl st h
+          refine ⟨i1, ?_⟩
+          intro fuel' e log hr
+          cases fuel' with
+          | zero => simp [run] at hr
+          | succ m =>
+            unfold run at hr
+            rw [hs] at hr
+            exact i2 m e log hr
+        · exact absurd h0 hpost.err
+      · rw [he0, hc.noerr] at h
+        simp at h
+        subst h
+        refine ⟨⟨e0, hE⟩, ?_⟩
+        intro fuel' e log hr
+        cases fuel' with
+        | zero => simp [run] at hr
+        | succ m =>
+          unfold run at hr
+          rw [hs] at hr
+          simp only at hr
+          rcases hs1 with hcl | ⟨_, _, hpost⟩
+          · have := hcl.noerr; rw [he0] at this; cases this
+          · have := run_post_err hv m c' hpost _ _ hr
+            rw [he0] at this; cases this; exact hE
+    | inr o =>
+      rw [hs] at h hs2
+      cases o with
+      | none_ e lg =>
+        cases e with
+        | none => simp at h
+        | some e' =>
+          simp only [hc.noerr, Option.isNone_none, if_true] at h
+          cases h
+          refine ⟨⟨e', hs2 e' rfl⟩, ?_⟩
+          intro fuel' e log hr
+          cases fuel' with
+          | zero => simp [run] at hr
+          | succ m =>
+            unfold run at hr
+            rw [hs] at hr
+            simp only at hr
+            cases hr
+            exact hs2 _ rfl
+      | _ => simp at h
+
+/-- [review] **Φ19 composed, all token lists**: every key of the `expected_tokens` that
+`MindsDBParser.error` stores (`keptExpected`, tied by the `can-take` stream) can be SHIFTED by the
+automaton right after the tokens before the bad one (after frontier-preserving reductions), the bad index
+being the one `parse` reports (or the key is `$end` on the accepting state). -/
+theorem C19_review_kept_expected_extends (T : Tables) (hv : T.valid = true) (nT : Nat) (toks : List Nat)
+    (h0 : ∀ x ∈ toks, x ≠ 0) (t : Nat) (ht : t ∈ keptExpected T nT toks) :
+    (∃ e, ErrAt T toks e) ∧
+    ∀ fuel e log, parse T .drain false toks fuel = .none_ (some e) log →
+      (∃ st' s', Path T ((s', .leaf t) :: st') ∧
+        yieldStack ((s', .leaf t) :: st') =
+          (match e.bad with | some k => toks.take k | none => toks) ++ [t]) ∨ t = 0 := by
+  unfold keptExpected at ht
+  split at ht
+  · simp at ht
+  · next st hst =>
+    split at ht
+    · simp at ht
+    · next row hrow =>
+      rw [List.mem_filter] at ht
+      obtain ⟨⟨e1, hE1⟩, hall⟩ := C19_review_errStack_errAtSt (valid_of_eq hv) toks _ _
+        (clean_init toks false h0) st hst
+      refine ⟨⟨e1, st, hE1⟩, ?_⟩
+      intro fuel e log hp
+      exact C19_kept_token_extends T hv toks st e (hall fuel e log hp) t 1000 ht.2
+
+/-- [review] **the suggestion clause, insert half, at parser level, for ALL inputs and ALL branches**
+(n = 1, end of query, checked): every suggestion `make_suggestion` prints when it is given the stored
+`expected_tokens` is the display value of a token type `ty` such that the automaton has a valid path
+spelling `toks[:k] ++ [ty]` — inserting it before the offending token, the parser shifts it, i.e. parsing
+proceeds past that position.  (Not covered, search only: that the display value LEXES to `ty` — cf.
+KF-C19-8 — and the "substitute" half, which the code does not implement: `repList`.) -/
+theorem C19_review_suggestion_extends (T : Tables) (hv : T.valid = true) (nT : Nat)
+    (valid : List Nat → Bool) (nm : Names) (attr : Nat → Option (List Char)) (types : List Nat)
+    (h0 : ∀ x ∈ types, x ≠ 0) (badIdx : Option Nat) :
+    ∀ s ∈ makeSuggestion valid nm attr types badIdx (keptExpected T nT types),
+      ∃ ty, (s, ty) ∈ buildExpected nm attr (sortIds (keptExpected T nT types)) [] ∧
+        ∀ fuel e log, parse T .drain false types fuel = .none_ (some e) log →
+          (∃ st' s', Path T ((s', .leaf ty) :: st') ∧
+            yieldStack ((s', .leaf ty) :: st') =
+              (match e.bad with | some k => types.take k | none => types) ++ [ty]) ∨ ty = 0 := by
+  intro s hs
+  obtain ⟨ty, hty, hmem⟩ := C19_suggestion_is_row_key valid nm attr types badIdx _ s hs
+  exact ⟨ty, hmem, (C19_review_kept_expected_extends T hv nT types h0 ty hty).2⟩
+
+-- [review] non-vacuity on the real tables (kernel): `select a from t limit 1 1` — the kept keys, the
+-- checked branch (13 display values, `1 < n < 20`), and the suggestions of the LR model alone.  The real
+-- message shows only "," and "OFFSET": the other five are rejected by SEMANTIC ACTIONS of the re-parse
+-- (keyword order), which the model does not predict — they reach it as the input `raises`.
+def rvNm : Names := ⟨ErrLex.idTok, ErrLex.floatTok, ErrLex.integerTok, ErrLex.dquoteTok, ErrLex.quoteTok⟩  -- [review]
+def rvAttr (t : Nat) : Option (List Char) := (ErrLex.attrs.getD t none).map String.toList  -- [review]
+def rvLimit : List Nat := [168, 74, 63, 74, 106, 81, 81]  -- [review]
+example : keptExpected Tables_mindsdb.tables Tables_mindsdb.nTerms rvLimit =  -- [review]
+    [0, 23, 54, 62, 63, 69, 71, 84, 106, 127, 132, 193, 196, 204] := by decide +kernel
+example : 1 < (buildExpected rvNm rvAttr  -- [review] hypothesis `hn` of `C19_suggestions_checked`
+    (sortIds (keptExpected Tables_mindsdb.tables Tables_mindsdb.nTerms rvLimit)) []).length := by decide +kernel
+example : (makeSuggestion (queryIsValid Tables_mindsdb.tables (fun _ => false)) rvNm rvAttr rvLimit (some 6)  -- [review]
+    (keptExpected Tables_mindsdb.tables Tables_mindsdb.nTerms rvLimit)).map String.ofList =
+    [",", "GROUP BY", "HAVING", "LIMIT", "OFFSET", "ORDER BY", "WHERE"] := by decide +kernel
+-- [review] unchecked branches: the doubled first token of the sample sentence (n = 1: `[identifier]`),
+-- and `select a from t where` (end of query) keep a non-empty key list
+example : ErrLex.idTok ∈ keptExpected Tables_mindsdb.tables Tables_mindsdb.nTerms
+    (Tables_mindsdb.sample.head! :: Tables_mindsdb.sample) := by decide +kernel
+example : keptExpected Tables_mindsdb.tables Tables_mindsdb.nTerms [168, 74, 63, 74, 204] ≠ [] := by decide +kernel
+
 /-- **Φ19 as a kernel-evaluated obligation on the generated mindsdb tables**: over all states that can
 be an error state (no default reduction, T19.2a) the kernel counts the shift keys and the reduce
 look-ahead keys of the action rows (16 chunk evaluations) and finds exactly the totals the
 translator computed from the live `lr_action` / `defaulted_states` (on the pinned tree 1266 states,
-35269 shift keys, 82467 reduce look-ahead keys). -/
+35269 shift keys, 82467 reduce look-ahead keys).
+[review] the figures in this comment are stale: the generated `Gen/Keys_mindsdb.lean` of this tree has
+1268 / 35394 / 82606.  The theorem is a translation cross-check of the tables (Lean recount = Python
+count), it states nothing about suggestions. -/
 theorem C19_key_totals_mindsdb :
     unpackTotals (Trie.sumIdx (Row.keyCount Tables_mindsdb.nTerms) Tables_mindsdb.tables.rows) =
       (Tables_mindsdb.nErrStates, Tables_mindsdb.nShiftKeys, Tables_mindsdb.nRedKeys) :=
